@@ -18,7 +18,7 @@ from lib import repo  # noqa: F401
 
 
 def render(rows, extra_columns: bool) -> str:
-    out = ["# CMAP File Version:\t0.1", "# Label Channels:\t1"]
+    out = ["# CMAP File Version:\t0.1", f"# Label Channels:\t{max([1] + [r['chan'] for r in rows])}"]
     if extra_columns:
         out.append("#h CMapId\tContigLength\tNumSites\tSiteID\tLabelChannel\tPosition\tStdDev\tCoverage\tOccurrence")
         out.append("#f int\tfloat\tint\tint\tint\tfloat\tfloat\tfloat\tfloat")
@@ -53,11 +53,15 @@ def random_rows(rng: random.Random):
     ids = rng.sample(range(1, 60), rng.randint(1, 6))
     if rng.random() < 0.15:       # ids that need more than 32 bits (CMapId is an int64 column)
         ids = rng.sample([7, 7 + 2 ** 32, 2 ** 31 + 11, 2 ** 31, 2 ** 40 + 3, 123456, 2 ** 32 - 1], rng.randint(2, 5))
+    elif rng.random() < 0.12:     # ids no double can hold (neighbours collide when an id passes through a float)
+        ids = rng.sample([2 ** 53 + 1, 2 ** 53 + 2, 2 ** 53 + 3, 2 ** 60 + 7, 5, 2 ** 62 + 1], rng.randint(2, 5))
+    two_colours = rng.random() < 0.2      # "# Label Channels: 2": label rows of colour 1 and 2 (0 stays the end marker)
     for c in ids:
         n = rng.choice([0, 1, 2, 5, 12, 30])
         x = rng.choice([0, 0, rng.randint(0, 3000)])
+        chan_of_molecule = rng.choice([0, 2, 2])      # 0: colours mixed within the molecule; 2: all of its labels in colour 2
         for _ in range(n):
-            rows.append({"cid": c, "chan": 1, "pos": x})
+            rows.append({"cid": c, "chan": (chan_of_molecule or rng.choice([1, 2])) if two_colours else 1, "pos": x})
             x += rng.choice([0, 1, 7, rng.randint(10, 200000)])
         # the end marker: often within the last (fractional) base pair after the last label, or exactly on it
         back = rng.choice([0, 0, 1, 7]) if n else 0
